@@ -73,8 +73,9 @@ def run(module, cfg, trace_file=None, workers=16, timeout=3000, env_extra=None, 
     m2 = re.search(r"Error: Action property (\w+) is violated", out)
     if m2:
         res["violated"] = m2.group(1)
-    if "Temporal properties were violated" in out:
-        res["violated"] = res["violated"] or "temporal"
+    mt = re.search(r"Temporal propert(?:y (\w+) was|ies were) violated", out)
+    if mt:
+        res["violated"] = res["violated"] or (mt.group(1) or "temporal")
     finished = "Model checking completed. No error has been found." in out or (simulate and p.returncode in (0,))
     res["ok"] = bool(finished) and res["violated"] is None
     res["lines"] = parse_json_lines(out)
